@@ -789,6 +789,27 @@ func (fp *FuncProof) checkPath(pe *PathEnd) {
 		}
 		if light {
 			hs, qs = lightHyps(hs, qs)
+		} else if !isSim {
+			// without the decimal-value step axioms first
+			var q2 []*QFact
+			dv := false
+			for _, q := range qs {
+				if q.Name == "DVstep" {
+					dv = true
+				} else {
+					q2 = append(q2, q)
+				}
+			}
+			if dv {
+				r0, q0, _ := fp.query("batch(tier)", hs, q2, gts, nil)
+				if r0.Status == "unsat" && fp.confirm(r0, q0) {
+					for _, it := range batch {
+						fp.record(it, r0, nil, nil, pe)
+					}
+					pending = rest
+					return
+				}
+			}
 		}
 		res, q, _ := fp.query("batch", hs, qs, gts, nil)
 		if res.Status == "unsat" && fp.confirm(res, q) {
@@ -807,16 +828,18 @@ func (fp *FuncProof) checkPath(pe *PathEnd) {
 	for _, it := range pending {
 		hs, qs := hypsFor(it)
 		vals := fp.modelTerms(pe)
-		if isSim {
-			// first without the specification run: most safety goals do not need it
-			lh, lq := lightHyps(hs, qs)
-			if !heavyTerm(it.t) {
-				r0, q0, _ := fp.query(it.name+"(light)", lh, lq, []*Term{it.t}, nil)
-				if r0.Status == "unsat" && fp.confirm(r0, q0) {
-					fp.record(it, r0, nil, nil, pe)
-					continue
-				}
+		tiers := hypTiers(hs, qs, it.t)
+		proved := false
+		for _, tr := range tiers[:len(tiers)-1] {
+			r0, q0, _ := fp.query(it.name+"(tier)", tr[0].([]*Term), tr[1].([]*QFact), []*Term{it.t}, nil)
+			if r0.Status == "unsat" && fp.confirm(r0, q0) {
+				fp.record(it, r0, nil, nil, pe)
+				proved = true
+				break
 			}
+		}
+		if proved {
+			continue
 		}
 		res, q, vstr := fp.query(it.name, hs, qs, []*Term{it.t}, vals)
 		if res.Status == "unsat" && !fp.confirm(res, q) {
